@@ -468,6 +468,6 @@ class BioConsert(RankAggAlgorithm, PairwiseBasedAlgorithm):
 
         """
         for alg in self._starting_algorithms:
-            if not alg.is_scoring_scheme_relevant_when_incomplete_rankings():
+            if not alg.is_scoring_scheme_relevant_when_incomplete_rankings(scoring_scheme):
                 return False
         return True
